@@ -986,3 +986,62 @@ def fj_default_header(ctx):
     for k in range(4):
         ctx.prove(hb.at(z3.IntVal(HOFF + k)) == LE32[k](z3.IntVal(HDR)), 'C08+C06:O8.10.header.last-record-offset-field-is-first-record-offset')
         ctx.prove(hb.at(z3.IntVal(32 + k)) == LE32[k](z3.IntVal(1)), 'C08:O8.10.header.format-version-field')
+
+
+# ------------------------------------------------------------------------------------------------ a session: reopen, then empty the journal
+@unit(name='FileJournal.reopen-then-empty', relpath=JMOD, qual=['FileJournal.__init__', 'FileJournal.clear', 'FileJournal.deleteEntriesFrom'], props=['C08', 'C06'],
+      cases=[dict(op='clear'), dict(op='deleteEntriesFrom0')],
+      kind='two calls in sequence on one object: the whole real FileJournal.__init__ on a file satisfying Rep (ResizableFile / MetaStorer construction by '
+           'their contracts, decode loop under its loop contract), then the emptying operation',
+      doc='O8.11 (history: any operation after a reopen): the object state an operation starts from is whatever the real __init__ establishes - including '
+          'state a unit that builds its pre-state by hand cannot know about (caches, flags) - and emptying a reopened journal empties it on disk too: '
+          'afterwards the file alone decodes to the empty journal (header offset == FIRST_RECORD_OFFSET), so another reopen or a kill cannot bring the '
+          'dropped entries back',
+      assumptions=['A-RANGE'], trusted=['T-STRUCT', 'T-MMAP'])
+def fj_reopen_then_empty(ctx, op):
+    rf, mm, img0 = mk_rfile(ctx)
+    v = fresh_view(ctx)
+    H = v.off(to_z3(v.n))
+    assume_rep(ctx, img0.arr, img0.size, H, v)
+    ctx.track('n_records', v.n)
+    mod = source.load(JMOD)
+    fn, ci = mod.find('FileJournal.__init__')
+    fj = ctx.alloc(PObj('FileJournal', {}))
+    meta = ctx.alloc(KVDict([(FreshBool('hasCommit'), 'raftCommitIndex', FreshInt('storedCommit'))]))
+    ms = ctx.alloc(PObj('MetaStorer', {'_MetaStorer__path': 'journal.bin.meta'}))
+    st = {}
+    loops = {'FileJournal.__init__': loop_table(mod, 'FileJournal.__init__', {Sel('while', header=('currentOffset',)): _decode_loop_spec(ctx, fj, v, img0, st)})}
+    reg = dict(JREG)
+    reg['MetaStorer.getMeta'] = lambda I_, s, a, k: meta
+    ext = dict(JEXT)
+    ext['str.encode'] = lambda I_, a, k: a[0].encode() if isinstance(a[0], str) else I_.raise_('TypeError')
+    I = Interp(ctx, registry=reg, externals=ext, inline={'FileJournal.__getLastRecordOffset', 'FileJournal.__setLastRecordOffset', 'FileJournal.__getDefaultHeader'},
+               loop_invariants=loops, hooks={'new:ResizableFile': lambda I_, a, k: rf, 'new:MetaStorer': lambda I_, a, k: ms})
+    I.cur_mod = mod
+    try:
+        I.call_funcdef(fn, mod, 'FileJournal', fj, ['journal.bin'], {}, None, 'FileJournal.__init__')
+        outcome = 'ok'
+    except PyExc as e:
+        outcome = e.typ
+    ctx.prove(outcome == 'ok', 'C08+C06:O8.11.reopen.no-exception', info=outcome)
+    if outcome != 'ok':
+        return
+    c = ctx.cell(fj)
+    ctx.prove(Eq(c.fields.get(FJ('currentOffset')), H), 'C08+C06:O8.11.reopen.currentOffset-is-end')
+    if op == 'clear':
+        outcome, r, I2 = run_fj(ctx, fj, 'clear', [])
+    else:
+        loops2 = {'FileJournal.deleteEntriesFrom': loop_table(mod, 'FileJournal.deleteEntriesFrom', {Sel('while'): _delfrom_loop_spec(ctx, fj, v, z3.IntVal(0), img0)})}
+        outcome, r, I2 = run_fj(ctx, fj, 'deleteEntriesFrom', [0], loops=loops2)
+    ctx.prove(outcome == 'ok', 'C08+C06:O8.11.empty.no-exception', info=outcome)
+    if outcome != 'ok':
+        return
+    img1 = ctx.cell(mm)
+    c = ctx.cell(fj)
+    ctx.prove(Eq(c.fields[FJ('currentOffset')], HDR), 'C08:O8.11.empty.currentOffset-is-first-record-offset')
+    # the file alone: its published end is the first record offset, i.e. it decodes to the empty journal
+    want = [LE32[k](z3.IntVal(HDR)) for k in range(4)]
+    for k in range(4):
+        ctx.prove(img1.arr(z3.IntVal(HOFF + k)) == want[k], 'C08+C06:O8.11.emptied-journal-is-empty-on-disk')
+    jl1 = ctx.cell(c.fields[FJ('journal')])
+    ctx.prove((isinstance(jl1, PList) and len(jl1.items) == 0) or (isinstance(jl1, SList) and Eq(jl1.n, 0)), 'C08:O8.11.empty.list-empty', info=repr(jl1))
